@@ -267,6 +267,7 @@ def run(ctx):
     draws_rule(ctx, "C15.R4")
     harvest.sync_order_rule(ctx, "C15.R5", "Sampler")
     harvest.reload_reads_rule(ctx, "C15.R11", "Sampler")
+    harvest.tmp_keeps_extension_rule(ctx, "C15.R12")
     c04.grow_order_rule(ctx, "C15.R6")
     harvest.failed_save_rule(ctx, "C15.R7")
     prog = ctx.prog
